@@ -229,7 +229,10 @@ class _SpanningDropletSignal(RuntimeError):
 
 
 def _locate_droplets_in_mask_cylindrical_single(
-    grid: CylindricalSymGrid, mask: np.ndarray
+    grid: CylindricalSymGrid,
+    mask: np.ndarray,
+    *,
+    z_cell_range: tuple[float, float] | None = None,
 ) -> Emulsion:
     """Locate droplets in a data set on a single cylindrical grid.
 
@@ -238,6 +241,10 @@ def _locate_droplets_in_mask_cylindrical_single(
             The cylindrical grid
         mask (:class:`~numpy.ndarray`):
             The binary image (or mask) in which the droplets are searched
+        z_cell_range (tuple, optional):
+            If given, only droplets whose center lies in the half-open interval
+            `[z_cell_range[0], z_cell_range[1])` along the z-axis are returned. The
+            interval is specified in cell coordinates of the `mask`.
 
     Returns:
         :class:`~droplets.emulsions.Emulsion`: The discovered spherical droplets
@@ -269,6 +276,15 @@ def _locate_droplets_in_mask_cylindrical_single(
     pos = ndimage.center_of_mass(mask, labels, index=indices)
     # correct for the fact that cell centers lie at half-integer cell coordinates
     pos = np.asarray(pos) + 0.5
+    if z_cell_range is not None:
+        # only keep the objects centered in the requested range. This is tested in cell
+        # coordinates since the center of mass is then not affected by round-off errors
+        keep = (z_cell_range[0] <= pos[:, 1]) & (pos[:, 1] < z_cell_range[1])
+        indices = [index for index, k in zip(indices, keep) if k]
+        pos = pos[keep]
+        if not indices:
+            example_drop = SphericalDroplet(np.zeros(grid.dim), radius=0)
+            return Emulsion.empty(example_drop)
     pos = grid.transform(pos, "cell", "cartesian")
 
     # determine volume from binary image and scale it to real space
@@ -308,28 +324,23 @@ def _locate_droplets_in_mask_cylindrical(mask: ScalarField) -> Emulsion:
 
         # pad the array to simulate periodic boundary conditions
         dim_r, dim_z = grid.shape
-        z_min, z_max = grid.axes_bounds[1]
         mask_padded = np.pad(mask.data, [[0, 0], [dim_z, dim_z]], mode="wrap")
         assert mask_padded.shape == (dim_r, 3 * dim_z)
 
         # locate droplets in the extended image
         try:
-            candidates = _locate_droplets_in_mask_cylindrical_single(grid, mask_padded)
+            # only keep droplets that are inside the central area, i.e., the original box
+            droplets = _locate_droplets_in_mask_cylindrical_single(
+                grid, mask_padded, z_cell_range=(dim_z, 2 * dim_z)
+            )
         except _SpanningDropletSignal:
             pass
         else:
-            _logger.info("Found %d droplet candidates.", len(candidates))
+            _logger.info("Found %d central droplets.", len(droplets))
 
-            # keep droplets that are inside the central area
-            droplets = Emulsion()
-            for droplet in candidates:
+            for droplet in droplets:
                 # correct for the additional padding of the array
                 droplet.position[2] -= grid.length
-                # check whether the droplet lies in the original box
-                if z_min <= droplet.position[2] <= z_max:
-                    droplets.append(droplet)
-
-            _logger.info("Kept %d central droplets.", len(droplets))
 
             # filter overlapping droplets (e.g. due to duplicates)
             droplets.remove_overlapping()
